@@ -318,7 +318,7 @@ def o4(h, st):
 # ---------------------------------------------------------------------------------------------------------------------
 # P1  frobenius_norm_compression on an operator with ANY number of terms: inductive invariant of the discarding loop
 
-from tverif.engine import GhostDict, stub
+from tverif.engine import GhostDict, stub, StandIn
 from tverif.interp import GhostIterable, GSeq
 
 
@@ -387,7 +387,7 @@ def p1(h, st):
     word = ((0, "Z"), (1, "X"))
     proto = _DiscardLoop(h, n, eps, word, c, S, D2, kept_any)
 
-    class _Terms:
+    class _Terms(StandIn):
         def items(self_):
             return GSeq.atom("self.terms.items()", (word, c), proto=proto)
     qop = QubitOperator.__new__(QubitOperator)
